@@ -332,6 +332,16 @@ class Headers:
                     self._size = self.io.seek(0, os.SEEK_END) // self.header_size
                     return
                 previous_header_hash = header_hash
+        if self.height >= max(start_height, 1):
+            # every other header is vouched for by its successor's link; the tip has none, validate it like connect() does
+            try:
+                await self.validate_chunk(self.height, self._read(self.height))
+            except InvalidHeader:
+                log.warning("Header file has an invalid tip at height %s, dropping it.", self.height)
+                self.io.seek(self.height * self.header_size, os.SEEK_SET)
+                self.io.truncate()
+                self.io.flush()
+                self._size = self.io.seek(0, os.SEEK_END) // self.header_size
 
     @classmethod
     def get_proof_of_work(cls, header_hash: bytes):
